@@ -269,7 +269,7 @@ func ruleParserOwnConfig(c *core.Ctx, rule string) {
 		for _, b := range fn.Blocks {
 			for _, in := range b.Instrs {
 				ci, ok := in.(ssa.CallInstruction)
-				if !ok || ci.Common().StaticCallee() != psc || cfgIdx < 0 || cfgIdx >= len(ci.Common().Args) {
+				if !ok || core.Callee(ci.Common()) != psc || cfgIdx < 0 || cfgIdx >= len(ci.Common().Args) {
 					continue
 				}
 				n++
